@@ -384,6 +384,12 @@ def c10_cases(tier, rng):
         [K.bipartite(a, b) for a in range(2, 6) for b in range(2, 6)] + [K.grid(w, h) for w in range(2, 6) for h in range(2, 6)]
     for (n, e), cb in rotate(rnd, combos, 1, rng):
         yield apply(n, e, cb)
+    # plateaus: runs of degenerate pivots (tight entering edge, nothing moves) before an improving one need room - they are
+    # rare below 10 nodes (0 of 30 000 graphs with 6 nodes) and common at 20-40: connected DAGs of 24-40 nodes, default budget
+    big = random_inputs(rng, 7000 if tier == "quick" else 60000, 24, 40, density=1.6, connected=True, acyclic=True, loop_rate=0)
+    combos_b = grid(p1=K.P1S, p2=["ns"], p4=["valign"], p5=["straight"], size=["none"], ls=[3], thor=[-1, -1, 8], cert=[1])
+    for (n, e), cb in rotate(big, combos_b, 1, rng):
+        yield apply(n, e, cb)
 
 
 NAME_STYLES = {
